@@ -92,10 +92,42 @@ def gen_case(rng, kind, tier):
     return case
 
 
+def boundary_cases(rng, kind, tier):
+    """The boundaries of the quantified dimensions, hit deliberately: batch 1 and 2 (0 is probed in every case), one
+    column, columns == heads, channels == heads (d_head = 1), prompts == groups, one prompt group."""
+    out = []
+
+    def mk(**kw):
+        c = gen_case(rng, kind, tier)
+        c.update(kw)
+        c["perm"] = list(range(c["cols"]))
+        rng.shuffle(c["perm"])
+        c["idx"] = [rng.randrange(c["B"]) for _ in range(rng.randint(1, 4))]
+        if c["prompts"] % c["groups"]:
+            c["groups"] = 1
+        out.append(c)
+
+    mk(B=1)
+    mk(B=2)
+    if kind in ("tab_conv", "excel_conv", "ft_convs"):
+        mk(heads=4, channels=4)                       # channels == heads
+        mk(heads=4, channels=8, cols=4)               # columns == heads
+        mk(heads=2, channels=4, cols=2, B=2)          # columns == heads == batch
+        mk(cols=1)
+    if kind == "trompt_conv":
+        mk(prompts=4, groups=4)                       # one prompt per group
+        mk(prompts=2, groups=1, cols=2)
+    if kind in ("trompt_decoder", "excel_decoder"):
+        mk(out=1)
+        mk(cols=1, prompts=2)
+    return out
+
+
 def generate(rng, tier):
-    n = 30 if tier == "quick" else 600
+    n = 24 if tier == "quick" else 600
     cases = []
     for kind in KINDS:
+        cases += boundary_cases(rng, kind, tier)
         for _ in range(n):
             cases.append(gen_case(rng, kind, tier))
     return cases
@@ -517,6 +549,18 @@ def stats(cases, obss):
         for a in used:
             dd = d.setdefault(f"arg:{c['kind']}.{a}", {})
             dd[str(c.get(a))] = dd.get(str(c.get(a)), 0) + 1
+        bd = d.setdefault("boundaries", {})
+        att = c["kind"] in ("tab_conv", "excel_conv", "ft_convs")
+        for name, cond in ((f"{c['kind']}:B=1", c["B"] == 1), (f"{c['kind']}:B=2", c["B"] == 2),
+                           (f"{c['kind']}:cols=1", c["cols"] == 1 and c["kind"] != "trompt_decoder"),
+                           (f"{c['kind']}:channels==heads", att and c["channels"] == c["heads"]),
+                           (f"{c['kind']}:cols==heads", att and c["cols"] == c["heads"] and c["heads"] > 1),
+                           ("trompt_conv:prompts==groups", c["kind"] == "trompt_conv" and c["prompts"] == c.get("groups")),
+                           ("trompt_conv:groups=1", c["kind"] == "trompt_conv" and c.get("groups") == 1),
+                           (f"{c['kind']}:out=1", c["kind"] in ("trompt_decoder", "excel_decoder") and c["out"] == 1)):
+            if cond:
+                bd[name] = bd.get(name, 0) + 1
+        bd["B=0 (probed in every case)"] = d["total"]
         for k, v in (("kinds", c["kind"]), ("B", c["B"]), ("cols", c["cols"]), ("heads", c["heads"])):
             d[k][str(v)] = d[k].get(str(v), 0) + 1
         if not o.get("ok"):
@@ -676,6 +720,15 @@ def sanity(cases, obss):
         probs.append("FTTransformerConvs never built with a non-default activation")
     if set(d.get("arg:trompt_conv.groups", {})) <= {"2"}:
         probs.append("TromptConv never built with a non-default num_groups")
+    bd = d.get("boundaries", {})
+    need = [f"{k}:B=1" for k in KINDS] + [f"{k}:B=2" for k in KINDS]
+    for k in ("tab_conv", "excel_conv", "ft_convs"):
+        need += [f"{k}:cols=1", f"{k}:channels==heads", f"{k}:cols==heads"]
+    need += ["trompt_conv:prompts==groups", "trompt_conv:groups=1", "trompt_decoder:out=1", "excel_decoder:out=1",
+             "excel_decoder:cols=1"]
+    for k in need:
+        if bd.get(k, 0) == 0:
+            probs.append(f"boundary {k} never hit")
     if d.get("core_probes", 0) == 0:
         probs.append("the channel-level attention core was never probed")
     if d.get("rejection_probes", 0) == 0:
